@@ -59,6 +59,21 @@ Check_X25S(r) ==
                <<"size", r.size = 2>> >>)
 
 -----------------------------------------------------------------------------
+\* C14 - timednetconn: every Read (Write) on the wrapped connection is immediately preceded by its own
+\* SetReadDeadline (SetWriteDeadline) whose deadline is the timeout from the moment of the call
+Check_TIMED(r) ==
+  LET n == Len(r.ops)
+      io == {i \in 1..n : r.ops[i].op \in {"Read", "Write"}}
+      armed(i) ==
+        /\ i > 1
+        /\ r.ops[i - 1].op = (IF r.ops[i].op = "Read" THEN "SetReadDeadline" ELSE "SetWriteDeadline")
+        /\ LET want == IF r.ops[i].op = "Read" THEN r.read_ms ELSE r.write_ms
+               d == r.ops[i - 1].dl - r.ops[i].t
+           IN d >= want - 50 /\ d <= want + 50
+  IN Failed(<< <<"H_calls_recorded", Cardinality(io) = r.calls>>,
+               <<"every_call_armed_with_a_fresh_deadline", \A i \in io : armed(i)>> >>)
+
+-----------------------------------------------------------------------------
 \* C03 - a message definition (reflected Go struct `raw`) as initialised by the library:
 \* CRC_EXTRA and the base / extended payload sizes are those the spec derives
 Check_DEF(r, raw) ==
